@@ -28,7 +28,7 @@ RULE = (
 )
 BOUNDS = {
     "quick": "23 base formats x 5 parameter groups (frame size+clean area, frame rate, pixel aspect ratio, luma range, colour-difference range) x 1 coding mode (alternating), first 2 alternative headers, symbolic values of 8 bits (frame size 1..255 etc.); real levels: first alternative",
-    "thorough": "first 6 alternative headers, symbolic values of 12 bits; real levels: first 6 alternatives",
+    "thorough": "first 3 alternative headers, symbolic values of 10 bits, both coding modes per group; real levels: first 6 alternatives",
 }
 OUTSIDE = "larger values; enum-valued parameters are enumerated (every single deviation from the base format and every colour primaries x matrix x transfer-function combination), not symbolic"
 ASSUMPTIONS = ["clean area is tied to the frame size (clean = frame, offsets 0) when the frame size is symbolic", "symbolic frame sizes are multiples of 4 (regular formats: valid for every chroma format and for field coding)"]
@@ -49,8 +49,8 @@ def _base_formats():
 
 def tasks(tier, seed):
     out = []
-    nalt = 2 if tier == "quick" else 6
-    bits = 8 if tier == "quick" else 12
+    nalt = 2 if tier == "quick" else 3
+    bits = 8 if tier == "quick" else 10
     for b in _base_formats():
         for gi, g in enumerate(GROUPS):
             for pcm in ((0, 1) if tier != "quick" else ((b + gi) % 2,)):
